@@ -150,6 +150,9 @@ package dhcp
 // every lease that is torn down was removed from the table in the critical section that found it
 // expired (a concurrent RELEASE / renewal can then neither tear it down again nor revive it)
 //@   ensures forall i int :: 0 <= i && i < len(expired) ==> unlockedN(1, expired[i].mac !in s.leases)
+// "never ... two unexpired bindings" / "an expired one becomes available again": only a lease whose
+// expiry lies in the past when the table is released is reaped -- never a lease that is still valid
+//@   ensures forall i int :: 0 <= i && i < len(expired) ==> unlockedN(1, expired[i].lease.ExpiresAt < now())
 //@   ghost relPool mathint = 0
 //@   ghost relNAT mathint = 0
 //@   ghost relQoS mathint = 0
@@ -159,6 +162,7 @@ package dhcp
 // every lease collected as expired (and removed from the table in the same critical section) is torn down
 //@ loop Server.cleanupExpiredLeases#1
 //@   invariant forall i int :: 0 <= i && i < len(expired) ==> expired[i].lease != nil && expired[i].mac !in s.leases
+//@   invariant forall i int :: 0 <= i && i < len(expired) ==> expired[i].lease.ExpiresAt < now()
 
 //@ loop Server.cleanupExpiredLeases#2
 //@   invariant relSessions == ridx && relQuarantined == 0
